@@ -4,12 +4,13 @@ from units.contracts_report import F as RF
 FX = "src/syntax/excerpt.rs"
 INNER = "excerpt@.subrange(1, excerpt@.len() - 1)"
 r_error_span = Fn(RF, "error_span", impl="Report", slot="diagn", mode="stub", key="Report::error_span",
-    ensures=[C("one_more_message", "final(self).msgs() == old(self).msgs() + 1")])
+    ensures=[C("one_more_message_at_the_span", "final(self).msgs() == old(self).msgs() + 1 && crate::syntax::err_span(final(self)) == span")])
 WHOLE = "unescape(%s, 0)" % INNER
 contents = Fn(FX, "excerpt_as_string_contents", slot="syntax", ret="res", key="excerpt_as_string_contents", props=["C05", "C03"],
     requires=[C("a_string_token_has_its_two_quotes", "excerpt@.len() >= 2", ["C03"])],
     ensures=[C("the_text_the_literal_stands_for", "(match res { Ok(st) => %s == Some(st@), Err(_) => %s is None })" % (WHOLE, WHOLE), ["C05"]),
-             C("an_invalid_escape_is_reported", "(res is Err ==> final(report).msgs() > old(report).msgs()) && (res is Ok ==> *final(report) == *old(report))", ["C03"])],
+             C("an_invalid_escape_is_reported", "(res is Err ==> final(report).msgs() > old(report).msgs()) && (res is Ok ==> *final(report) == *old(report))", ["C03"]),
+             C("the_diagnostic_points_at_the_string_token", "res is Err ==> err_span(final(report)) == span", ["C13"])],
     rewrites=[
         Rewrite("let mut i = 0;", "let mut i: i32 = 0;", rule="R10", why="type ascription (the integer default, written out)"),
         Rewrite("let verif_hi_2 = 2; let mut verif_next_2 = 0;", "let verif_hi_2: usize = 2; let mut verif_next_2: usize = 0;", rule="R10", why="type ascription") if False else Rewrite(r"assert!\(excerpt\.len\(\) >= 2\);\s*let mut chars = excerpt\[1\.\.\(excerpt\.len\(\) - 1\)\]\.chars\(\)\.peekable\(\);", "let mut chars = verif_inner_chars(excerpt);", regex=True, rule="R41",
@@ -52,7 +53,7 @@ contents = Fn(FX, "excerpt_as_string_contents", slot="syntax", ret="res", key="e
 UNIT = Unit(
     "U-strings", "u_strings/skeleton.rs",
     items=[r_error_span, contents],
-    serves=["C05", "C03"],
+    serves=["C05", "C13", "C03"],
     carry_facts_into_loops=False,
     description="syntax::excerpt_as_string_contents: the escapes of a string literal",
 )
